@@ -36,12 +36,19 @@ def obligations(tier):
         Obligation("dynamic_ids_exhausted_or_one_free", "harness.mgr_step", "c03_dyn", [{"off": o} for o in ((0, 99) if tier == "quick" else (0, 1, 50, 98, 99))],
                    cond_timeout=200, path_timeout=60, reach="c03_dyn_reach", encoded=ENC,
                    bounds="100 live modules on the dynamic range, the free id (none or any of 100..199) symbolic", symbolic="free id"),
+        Obligation("options_honoured_through_connect_and_client_context", "harness.c06_opts", "opts",
+                   [{"entry": e, "name": n} for e in ("connect", "context") for n in (0, 1)], cond_timeout=200, path_timeout=60,
+                   reach="opts_reach", reach_shards=[{"entry": "context", "name": 1}],
+                   encoded=["pyrtma.client:Client.__init__", "pyrtma.client:Client.connect", "pyrtma.client:Client._connect_helper",
+                            "pyrtma.client:client_context", "pyrtma.client:Client.send_module_ready"] + ENC,
+                   bounds="one client connecting to an otherwise empty manager through Client.connect and through client_context; name empty / non-empty",
+                   symbolic="module_id 0..99 (0 = dynamic), logger_status, daemon_status, allow_multiple"),
     ]
 
 
 MANIFEST = {
     "text": "For every requested id (int16), flags, cursor position, and every id/unique/name pattern of up to two incumbents, the real connect_module/assign_module_id accept exactly the requests C06 allows, "
-            "refuse (close, no ACK, incumbents untouched) the others, assign a free dynamic id in range and report it in the ACK, and keep I5. Options plumbing of Client.connect/client_context is a separate obligation (client harness).",
+            "refuse (close, no ACK, incumbents untouched) the others, assign a free dynamic id in range and report it in the ACK, and keep I5. The options a caller passes to Client.connect / client_context are checked at the manager-side Module through the real CONNECT_V2/CONNECT frames.",
     "note": "ctypes shadows, recorders; names by equality pattern over a 3-name pool",
     "design_ref": "DESIGN.md 4.6",
 }
